@@ -605,8 +605,8 @@ fn declared_lengths(input: &[u8]) -> Vec<(u8, u128)> {
             }
             let s = j;
             let mut v: u128 = 0;
-            while j < input.len() && input[j].is_ascii_digit() && j - s < 38 {
-                v = v * 10 + (input[j] - b'0') as u128;
+            while j < input.len() && input[j].is_ascii_digit() {
+                v = v.saturating_mul(10).saturating_add((input[j] - b'0') as u128);
                 j += 1;
             }
             if j > s {
@@ -1215,6 +1215,9 @@ struct TotStats {
 }
 
 fn tot_inproc(rep: &mut Report, stats: &mut TotStats, input: &[u8]) {
+    if std::env::var_os("VERIF_TRACE").is_some() {
+        eprintln!("TRACE {}", to_hex(input));
+    }
     let out = totality_eval(input, None);
     stats.count += 1;
     stats.cells[lead_class_idx(input)][out.class as usize] = true;
